@@ -78,7 +78,7 @@ pub fn with_indices<const CAP: usize>(max: usize) {
     kani::cover!(r.is_none() && i1 != i2, "rejected for range");
 }
 
-/// Finders report the pair they were given; min_haystack_len formula.
+/// Finders report the pair they were given.
 #[cfg(all(kani, any(vcfg_x86std, vcfg_x86none, vcfg_x86alloc, vcfg_x86avx2)))]
 pub fn finders_report_pair<const NLEN: usize>() {
     use memchr::arch::all::packedpair as portable;
@@ -91,17 +91,14 @@ pub fn finders_report_pair<const NLEN: usize>() {
         assert!(f.pair().index1() == i1 && f.pair().index2() == i2, "oracle: portable finder reports another pair");
         if let Some(f) = sse2::packedpair::Finder::with_pair(&needle, pair) {
             assert!(f.pair().index1() == i1 && f.pair().index2() == i2, "oracle: sse2 finder reports another pair");
-            assert!(f.min_haystack_len() == core::cmp::max(NLEN, mx + 16), "oracle: sse2 min_haystack_len");
         }
         memchr::verif::force_avx2(Some(true));
         if let Some(f) = avx2::packedpair::Finder::with_pair(&needle, pair) {
             assert!(f.pair().index1() == i1 && f.pair().index2() == i2, "oracle: avx2 finder reports another pair");
-            assert!(f.min_haystack_len() == core::cmp::max(NLEN, mx + 16), "oracle: avx2 min_haystack_len");
             kani::cover!(true, "avx2 finder built");
         }
         let g = memchr::verif::SmallPacked::<4>::new(&needle, pair);
         assert!(g.pair().index1() == i1 && g.pair().index2() == i2, "oracle: generic finder reports another pair");
-        assert!(g.min_haystack_len() == core::cmp::max(NLEN, mx + 4), "oracle: generic min_haystack_len");
     }
 }
 
